@@ -19,6 +19,7 @@ import Jamm.Gen.Steps
 import Jamm.Proofs.CommitCompose
 import Jamm.Proofs.ImplCheckLemmas
 import Jamm.Proofs.TreeDBLemmas
+import Jamm.Proofs.TreeDBCommit
 set_option linter.unusedSectionVars false
 
 namespace Jamm.Props.C16
@@ -63,8 +64,8 @@ example : grownSize 4096 (9 * 1024 * 1024) Gen.params.minAllocSize = 4096 + 16 *
 rebalance step lists) leaves the same contents in the bucket -/
 theorem commit_contents_independent_of_pagesize (ps1 ps2 hdr leafHdr branchHdr bmSize : Nat)
     (steps1 steps2 : List RbStep) (touched1 touched2 : List Bytes) (t : Tree Bytes Ent) (h : TreeInv t) :
-    (commitTree Gen.params ps1 hdr leafHdr branchHdr bmSize steps1 touched1 t).flatten =
-    (commitTree Gen.params ps2 hdr leafHdr branchHdr bmSize steps2 touched2 t).flatten := by
+    (commitTree Gen.params ps1 hdr leafHdr branchHdr (entSize bmSize) steps1 touched1 t).flatten =
+    (commitTree Gen.params ps2 hdr leafHdr branchHdr (entSize bmSize) steps2 touched2 t).flatten := by
   obtain ⟨d, hu⟩ := h.uniform
   rw [commitTree_flatten _ _ _ _ _ _ steps1 touched1 t d hu,
     commitTree_flatten _ _ _ _ _ _ steps2 touched2 t d hu]
@@ -72,8 +73,8 @@ theorem commit_contents_independent_of_pagesize (ps1 ps2 hdr leafHdr branchHdr b
 /-- with the tunables of the current source, commit keeps the tree invariant at every page size -/
 theorem commit_invariant_any_pagesize (pagesize hdr leafHdr branchHdr bmSize : Nat)
     (steps : List RbStep) (touched : List Bytes) (t : Tree Bytes Ent) (h : TreeInv t) :
-    TreeInv (commitTree Gen.params pagesize hdr leafHdr branchHdr bmSize steps touched t) :=
-  commitTree_inv Gen.params pagesize hdr leafHdr branchHdr bmSize params_valid (by decide) steps touched t h
+    TreeInv (commitTree Gen.params pagesize hdr leafHdr branchHdr (entSize bmSize) steps touched t) :=
+  commitTree_inv Gen.params pagesize hdr leafHdr branchHdr (entSize bmSize) params_valid (by decide) steps touched t h
 
 /-- strict mode runs the database's own check before the header is written; it accepts every file the
 independent checker accepts (which the run establishes for every commit), so strict mode never turns a valid
@@ -120,5 +121,15 @@ theorem same_contents_after_commits (f1 f2 : Spec.Path K → Tree K (Spec.Item V
   rw [TDB.commitWith_refines f1 db1 hf1, TDB.commitWith_refines f2 db2 hf2, hab]
 
 end
+
+/-- the same database committed by the commit model under two page sizes (any split thresholds derived from
+them, any rebalance steps, any touched keys), values included, has the same logical contents afterwards -/
+theorem commit_under_two_page_sizes_same_contents (ps1 ps2 hdr leafHdr branchHdr bmSize : Nat)
+    (steps1 steps2 : Spec.Path Bytes → List RbStep) (touched1 touched2 : Spec.Path Bytes → List Bytes)
+    (db : TDB.DB Bytes Bytes) (h : TDB.AllInv db) :
+    TDB.abs (TDB.commitDB Gen.params ps1 hdr leafHdr branchHdr bmSize steps1 touched1 db) =
+    TDB.abs (TDB.commitDB Gen.params ps2 hdr leafHdr branchHdr bmSize steps2 touched2 db) := by
+  rw [TDB.commitDB_invisible Gen.params ps1 hdr leafHdr branchHdr bmSize steps1 touched1 db h,
+    TDB.commitDB_invisible Gen.params ps2 hdr leafHdr branchHdr bmSize steps2 touched2 db h]
 
 end Jamm.Props.C16
